@@ -117,6 +117,7 @@ def bopTarget : BOp → Option Nat
   | .keys c => some c
   | .flush c => some c
   | .endFault c => some c
+  | .endFaultTorn c _ => some c
 
 theorem frame_id (bw : BWorld) (c : Nat) (b : Backend) (hb : getB bw c = some b) :
     (∀ j, j ≠ c → getB bw j = getB bw j) ∧ (∀ s, s ≠ b.slot → getH bw.w s = getH bw.w s) ∧
@@ -199,6 +200,19 @@ theorem bstep_frame (bw : BWorld) (op : BOp) (c : Nat) (b : Backend) (ht : bopTa
     simp only [setB_w]
     exact step_frame _ _ s (by simpa [opTarget] using hs)
 
+  | endFaultTorn c' n =>
+    simp only [bopTarget, Option.some.injEq] at ht; subst ht
+    simp only [bstep, hb]
+    cases hq : b.queue with
+    | nil =>
+      refine ⟨fun j hj => by simp [getB, setB, hj], fun s hs => ?_, by simp [getB, setB]⟩
+      simp only [setB_w]
+      exact step_frame _ _ s (by simpa [opTarget] using hs)
+    | cons kv q' =>
+      refine ⟨fun j hj => by simp [getB, setB, hj], fun s hs => ?_, by simp [getB, setB]⟩
+      simp only [setB_w]
+      rw [step_frame _ _ s (by simpa [opTarget] using hs)]
+      rfl
 
 theorem brun_frame (c : Nat) (ops : List BOp) : ∀ (bw : BWorld) (b : Backend),
     (∀ op ∈ ops, bopTarget op = some c) → getB bw c = some b →
